@@ -133,6 +133,145 @@ theorem docker_exec_vector_read_as_intended (P : Platform) (u : URL) (hv : ensur
     simp [interpret, interpretAux, dockerExecArgs, splitSpaces, htu, hw, opt, val, operand, urlOperand, urlValue,
       startsWithDash_dash, takesValue, h2, e1, e2]
 
+/-! ## Docker vectors with daemon connection flags
+
+The assumption on the flags is `ReadAsIntended flags`: read by the same getopt/pflag model, the
+flag block consists of options and their values and leaves the reading of what follows
+unaffected. `daemon_flags_read_as_intended` shows that it holds for the flags Mutagen computes
+from URL parameters (`--config V`, `--host V`, `--context V`, `--tls`, `--tlscacert V`,
+`--tlscert V`, `--tlskey V`, `--tlsverify`), for arbitrary parameter values — these are never
+derived from the user, host or container (`daemon_flags_carry_no_url_component`). -/
+
+/-- The daemon connection flags computed from URL parameters are read as options and option values. -/
+theorem daemon_flags_read_as_intended (parameters : List (Str × Str)) (flags : List Arg)
+    (h : daemonConnectionFlags parameters = .ok flags) : ReadAsIntended flags :=
+  daemonConnectionFlags_readAsIntended h
+
+/-- **docker stop / start with daemon flags.** -/
+theorem docker_status_vector_with_flags_read_as_intended (P : Platform) (u : URL) (hv : ensureValid P u = .ok ())
+    (hp : u.protocol = .docker) (flags : List Arg) (hf : ReadAsIntended flags) (stop : Bool) :
+    interpret takesValue ((dockerStatusArgs flags u.host stop).map (·.text)) =
+      (dockerStatusArgs flags u.host stop).map (·.role) := by
+  obtain ⟨_, _, h2⟩ := valid_components hv (Or.inr hp)
+  apply interpret_of_readAsIntended
+  unfold dockerStatusArgs
+  refine readAsIntended_append hf (readAsIntended_append (a := [_]) (b := [_]) ?_ ?_)
+  · apply readAsIntended_operand _ rfl
+    cases stop <;> rfl
+  · exact readAsIntended_operand _ rfl h2
+
+/-- **docker cp with daemon flags**: `cp`, the local path (absolute in practice; assumed not to
+start with '-') and `container:path` are read as operands. `docker cp` parses interspersed flags,
+so the conservative reading — any later element starting with '-' would be an option — is the
+right one here; the container name not starting with '-' is what makes the last operand safe. -/
+theorem docker_cp_vector_read_as_intended (P : Platform) (u : URL) (hv : ensureValid P u = .ok ())
+    (hp : u.protocol = .docker) (flags : List Arg) (hf : ReadAsIntended flags)
+    (windows : Bool) (home localPath remoteName : Str) (hl : startsWithDash localPath = false) :
+    interpret takesValue ((dockerCopyArgs flags u.host windows home localPath remoteName).map (·.text)) =
+      (dockerCopyArgs flags u.host windows home localPath remoteName).map (·.role) := by
+  obtain ⟨hh, _, h2⟩ := valid_components hv (Or.inr hp)
+  apply interpret_of_readAsIntended
+  unfold dockerCopyArgs
+  refine readAsIntended_append hf
+    (readAsIntended_append (a := [_]) (b := [_, _]) ?_ (readAsIntended_append (a := [_]) (b := [_]) ?_ ?_))
+  · exact readAsIntended_operand _ rfl rfl
+  · exact readAsIntended_operand _ rfl hl
+  · apply readAsIntended_operand _ rfl
+    show startsWithDash (u.host ++ _) = false
+    rw [startsWithDash_append _ hh]; exact h2
+
+/-- **docker exec with daemon flags**, any command, working directory and user override:
+`exec` is an operand, `--interactive` a switch, `--user V` / `--workdir V` options with their
+values (whatever the values look like), the container the operand, and the words of the command
+operands. The conservative reading does not stop at the first operand, so the words of the
+command are assumed not to start with '-' here (true of the agent invocation, `env`,
+`cmd /c set` and `chown user:group name`); for `id -un` / `id -gn` it is `docker exec`'s
+documented behaviour of not parsing anything after the container that keeps `-un` from being
+read as a flag — see `docker_exec_vector_read_until_container` below, which needs no
+assumption on the command. -/
+theorem docker_exec_vector_with_flags_read_as_intended (P : Platform) (u : URL) (hv : ensureValid P u = .ok ())
+    (hp : u.protocol = .docker) (flags : List Arg) (hf : ReadAsIntended flags)
+    (command workingDirectory user : Str) (hc : ∀ w ∈ splitSpaces command, startsWithDash w = false) :
+    interpret takesValue ((dockerExecArgs flags u.host u.user command workingDirectory user).map (·.text)) =
+      (dockerExecArgs flags u.host u.user command workingDirectory user).map (·.role) := by
+  obtain ⟨_, _, h2⟩ := valid_components hv (Or.inr hp)
+  apply interpret_of_readAsIntended
+  unfold dockerExecArgs
+  have hexec : ReadAsIntended [operand "exec".toList, opt "--interactive"] :=
+    readAsIntended_append (a := [_]) (b := [_]) (readAsIntended_operand _ rfl rfl)
+      (readAsIntended_switch "interactive".toList (by decide))
+  have huser : ReadAsIntended (if user ≠ [] then [opt "--user", val user]
+      else if u.user ≠ [] then [opt "--user", urlValue u.user] else []) := by
+    by_cases h1 : user = []
+    · by_cases h3 : u.user = []
+      · simp only [h1, h3, ne_eq, not_true_eq_false, if_false]; exact readAsIntended_nil
+      · simp only [h1, h3, ne_eq, not_true_eq_false, not_false_eq_true, if_false, if_true]
+        exact readAsIntended_valued "user".toList _ rfl (by decide)
+    · simp only [h1, ne_eq, not_false_eq_true, if_true]
+      exact readAsIntended_valued "user".toList _ rfl (by decide)
+  have hwd : ReadAsIntended (if workingDirectory ≠ [] then [opt "--workdir", val workingDirectory] else []) := by
+    by_cases h1 : workingDirectory = []
+    · simp only [h1, ne_eq, not_true_eq_false, if_false]; exact readAsIntended_nil
+    · simp only [h1, ne_eq, not_false_eq_true, if_true]
+      exact readAsIntended_valued "workdir".toList _ rfl (by decide)
+  exact readAsIntended_append (readAsIntended_append (readAsIntended_append (readAsIntended_append
+    (readAsIntended_append hf hexec) huser) hwd) (readAsIntended_operand _ rfl h2))
+    (readAsIntended_operands _ hc)
+
+/-- **docker exec as `docker` parses it**: top-level flags, the `exec` sub-command, its flags, the
+container, and then nothing more is parsed (the flag sets of `docker` and `docker exec` are not
+interspersed: two operands, `exec` and the container, end option parsing). Under this reading
+every element of the vector plays the role it was built for, for *any* command — `id -un`,
+`chown …`, the agent invocation — any working directory, any user override and any
+daemon flags satisfying `OptionsReadAsIntended` (those computed from URL parameters do:
+`daemon_flags_options_read_as_intended`). The only fact needed about the URL is that the
+container name does not start with '-'. -/
+theorem docker_exec_vector_read_until_container (P : Platform) (u : URL) (hv : ensureValid P u = .ok ())
+    (hp : u.protocol = .docker) (flags : List Arg) (hf : OptionsReadAsIntended flags)
+    (command workingDirectory user : Str) :
+    interpretUntil takesValue 2 false ((dockerExecArgs flags u.host u.user command workingDirectory user).map (·.text)) =
+      (dockerExecArgs flags u.host u.user command workingDirectory user).map (·.role) := by
+  obtain ⟨_, _, h2⟩ := valid_components hv (Or.inr hp)
+  have huser : OptionsReadAsIntended (if user ≠ [] then [opt "--user", val user]
+      else if u.user ≠ [] then [opt "--user", urlValue u.user] else []) := by
+    by_cases h1 : user = []
+    · by_cases h3 : u.user = []
+      · simp only [h1, h3, ne_eq, not_true_eq_false, if_false]; exact optionsRead_nil
+      · simp only [h1, h3, ne_eq, not_true_eq_false, not_false_eq_true, if_false, if_true]
+        exact optionsRead_valued "user".toList _ rfl (by decide)
+    · simp only [h1, ne_eq, not_false_eq_true, if_true]
+      exact optionsRead_valued "user".toList _ rfl (by decide)
+  have hwd : OptionsReadAsIntended (if workingDirectory ≠ [] then [opt "--workdir", val workingDirectory] else []) := by
+    by_cases h1 : workingDirectory = []
+    · simp only [h1, ne_eq, not_true_eq_false, if_false]; exact optionsRead_nil
+    · simp only [h1, ne_eq, not_false_eq_true, if_true]
+      exact optionsRead_valued "workdir".toList _ rfl (by decide)
+  have hmid := optionsRead_append (optionsRead_append (optionsRead_switch "interactive".toList (by decide)) huser) hwd
+  unfold dockerExecArgs
+  simp only [List.map_append, List.append_assoc]
+  rw [hf 1]
+  show _ ++ interpretUntil takesValue 2 false ("exec".toList :: _) = _
+  rw [interpretUntil_operand 1 _ _ rfl]
+  have := hmid 0 ((List.map (fun x => x.text) [urlOperand u.host]) ++ List.map (fun x => x.text) (List.map operand (splitSpaces command)))
+  have eopt : opt "--interactive" = optS ('-' :: '-' :: "interactive".toList) := by decide
+  simp only [List.map_append, List.append_assoc] at this
+  simp only [List.map_cons, List.map_nil, List.cons_append, List.nil_append, List.append_assoc, Nat.zero_add] at this
+  simp only [List.map_cons, List.map_nil, List.cons_append, List.nil_append, List.append_assoc, List.append_eq, eopt]
+  rw [this]
+  have hc : interpretUntil takesValue 1 false ((urlOperand u.host).text :: List.map (fun x => x.text) (List.map operand (splitSpaces command))) =
+      .operand :: (List.map (fun x => x.text) (List.map operand (splitSpaces command))).map fun _ => Role.operand := by
+    have e := interpretUntil_operand 0 u.host
+      (List.map (fun x => x.text) (List.map operand (splitSpaces command))) h2
+    rw [interpretUntil_zero] at e
+    exact e
+  rw [hc]
+  simp [operand, urlOperand, opt, optS]
+
+/-- The daemon connection flags computed from URL parameters qualify for the previous theorem. -/
+theorem daemon_flags_options_read_as_intended (parameters : List (Str × Str)) (flags : List Arg)
+    (h : daemonConnectionFlags parameters = .ok flags) : OptionsReadAsIntended flags :=
+  daemonConnectionFlags_optionsRead h
+
 /-! ## Non-vacuity and the unrepaired behaviour -/
 
 /-- Without the check in `EnsureValid` the host `-oProxyCommand=x` would be read by `ssh` as an option. -/
